@@ -182,6 +182,23 @@ func main() {
 			strings.Join(srcs, ",")+";"+plus, ok, "mem,imm,tables;plus1")
 	}
 
+	{
+		// oracle.seedOp (same rule and name as the MVCC extractor): the comparison that decides whether
+		// initCommitState moves nextTxnTs, with the early return for 0 and the oracle starting at 1
+		tx := o.Load("txn.go")
+		ic := tx.Func("oracle.initCommitState")
+		op, ok := tx.FindCmp(body(ic), "committed", "o.nextTxnTs.Load()")
+		early := false
+		for _, c := range tx.IfWithBodyContaining(body(ic), "return") {
+			if c == "o == nil || committed == 0" {
+				early = true
+			}
+		}
+		nw := tx.Func("newOracle")
+		ok = ok && early && nw != nil && tx.HasStmt(nw.Body, "orc.nextTxnTs.Store(1)")
+		o.Set("oracle.seedOp", "txn.go:oracle.initCommitState", op, ok, "ge")
+	}
+
 	// ------------------------------------------------------------ wal/manager.go
 	wm := o.Load("wal/manager.go")
 	{
@@ -351,13 +368,13 @@ open NoKV NoKV.Disk
 def cfg : Cfg :=
   { ackAfterSync := %s, headFirst := %s, batchWhole := %s, atomicAppend := %s,
     flushOrder := %s, closeFlushesWal := %s, headOnFidChange := %s, reconcileDrops := %s,
-    seedMem := %s, seedTables := %s, seedPlusOne := %s }
+    seedMem := %s, seedTables := %s, seedPlusOne := %s, seedGe := %s }
 
 end NoKV.Generated.Disk
 `,
 		b(f["db.commitOrder"] == "vlog,apply,sync,ack"), b(f["db.applyOrder"] == "head,lsm"), b(f["lsm.batchSplit"] == "whole"),
 		b(f["wal.batchAppend"] == "atomic"), flushOrder, b(strings.HasPrefix(f["close.order"], "flush,")),
 		b(strings.Contains(f["vlog.headPersistRule"], "fidchange")), b(f["reconcile.rule"] == "dropAboveMaxValid"),
-		b(srcs["mem"] && srcs["imm"]), b(srcs["tables"]), b(plus1))
+		b(srcs["mem"] && srcs["imm"]), b(srcs["tables"]), b(plus1), b(f["oracle.seedOp"] == "ge"))
 	o.Write(*jsonOut, *leanOut, lean)
 }
